@@ -42,10 +42,17 @@ LeapUntil(pr, u, rev) == LET a == IF rev THEN pr[2] ELSE pr[1]   b == IF rev THE
 LeapSince(pr, u, rev) == LET a == IF rev THEN pr[2] ELSE pr[1]   b == IF rev THEN pr[1] ELSE pr[2]
                          IN /\ cur = AnchorDate /\ ValidDate(a) /\ ValidDate(b)
                             /\ last' = [op |-> "since", a |-> a, b |-> b, u |-> u, r |-> Diff(a, b, u)] /\ UNCHANGED cur
+\* leap days moved by whole years across the Gregorian exceptions: a multiple of 4 years from a leap day does NOT always land on a
+\* leap day (2096 + 4, 1896 + 4, -104 + 4; 2000 +- 100), a multiple of 400 always does
+CenturyLeapDays == {Date(2096, 2, 29), Date(2104, 2, 29), Date(1896, 2, 29), Date(1904, 2, 29), Date(2000, 2, 29), Date(1600, 2, 29), Date(-104, 2, 29), Date(0, 2, 29)}
+CenturyYears == {4, -4, 8, -8, 100, -100, 200, 400, -400, 104, 96}
+CenturyAct(a, y, mo, d, ovf) == /\ cur = AnchorDate
+                                /\ last' = [op |-> "add", a |-> a, dur |-> [y |-> y, mo |-> mo, w |-> 0, d |-> d], ovf |-> ovf, out |-> AddDateI(a, y, mo, 0, d, ovf)] /\ UNCHANGED cur
 Next == /\ (OneStep => last = None)
         /\ \/ \E b \in Window, u \in LargestSet : Until(b, u) \/ Since(b, u)
            \/ \E pr \in LeapPairs, u \in LargestSet, rev \in BOOLEAN : LeapUntil(pr, u, rev) \/ LeapSince(pr, u, rev)
            \/ \E D \in DurSet, ovf \in {"constrain", "reject"} : AddAct(D, ovf) \/ SubAct(D, ovf)
+           \/ (DurSet # {} /\ \E a \in CenturyLeapDays, y \in CenturyYears, ovf \in {"constrain", "reject"} : \E mo \in {0, 12 * SgnI(y)}, d \in {0, SgnI(y)} : CenturyAct(a, y, mo, d, ovf))
            \/ \E D \in DurSet, tf \in TimeForms, ovf \in {"constrain"} : AbsSmall(D) /\ AddTimeAct(D, tf, ovf)
 Spec == Init /\ [][Next]_vars
 
